@@ -340,13 +340,16 @@ pub fn parse_and_bind<R: FsModuleResolver>(
         }
 
         if let Some(enum_) = locals.content.enums.get(&k) {
-            symbol_exports.insert_type(
-                renamed.to_string(),
-                Rc::new(SymbolExport::TsEnumDecl {
-                    decl: enum_.clone(),
-                    original_file: file_name.clone(),
-                }),
-            );
+            // an enum is a type and a value, as for `export enum E {}`
+            let export = Rc::new(SymbolExport::TsEnumDecl {
+                decl: enum_.clone(),
+                original_file: file_name.clone(),
+            });
+            symbol_exports.insert_type(renamed.to_string(), export.clone());
+            // the default export is one slot that serves both sides and can be set only once
+            if renamed != "default" {
+                symbol_exports.insert_value(renamed.to_string(), export);
+            }
             continue;
         }
 
